@@ -41,6 +41,11 @@ CHECKS = {
    text='Exploration: 400+ API scripts over {step, receive, cancel, reset, serialize, destroy, create}; stepper blocked in step() cancelled/fed from another thread must finish with each onexit once and destruction returning; churn of short-lived interpreters with yields at the lost-wake-up window; trace(h1; reset; h2) = trace(fresh h2).',
    note='"Always terminates" = terminated within the watchdog in every explored schedule. Unbounded liveness is outside runtime monitoring.',
    ref='DESIGN.md 3/C10'),
+ 'C11': dict(
+   technique='history checker over recorded multi-session executions + ThreadSanitizer/AddressSanitizer: parent/child chart pairs from a parameterised template run with the monitor copied to the invoked sessions, seeded yields and forced schedules at the USCXML_VERIF points in USCXMLInvoker::run/stop and the queues; offline start/stop, done.invoke, silence-after-cancel, routing/FIFO/exactly-once and finalize checker; watchdog with gdb stacks',
+   text='Exploration of chart pairs x timings x schedules: child finishing early/late/never, parent leaving the invoking state early/late/never/within the same macrostep or re-entering it, one or two children, autoforward and finalize; every rule of the property is decided on the merged, globally sequenced records of all sessions; data races with a frame in the invoker/interpreter/queue files are violations.',
+   note='Interleavings are sampled and forced at hook sites, not enumerated. done.invoke and the farewell event are optional when completion and cancellation overlap in the recorded order. Only the scxml invoker with inline <content> is exercised (no src=, which needs the URL fetcher thread).',
+   ref='DESIGN.md 3/C11'),
  'C19': dict(
    technique='runtime oracle on Interpreter::validate(): valid-by-construction documents must get no FATAL/syntax issue; single-fault documents that pass validation are executed on both engines (ASan/UBSan, legality monitor) and transformed; XML mutants validate without crash',
    text='Exploration: 400 valid documents (id-less states, multi-target deep initials, real lua/promela expressions) and 600 single-fault documents of 14 kinds per quick run; "no fatal issue" must imply a safe run (no crash, no exception at initialisation, legal configurations) and a safe transformation.',
